@@ -131,6 +131,13 @@ def _numpy_guard_end(what):
         raise Harness('%s drew python-level numpy coins although only the numba stream was scripted' % what)
 
 
+def sign_coins_of_default_run(body):
+    """python-level (numpy) coins the body draws on the all-filler run."""
+    rng.script((), ())
+    body()
+    return rng.consumed()[1]
+
+
 def bits(k, n):
     return tuple((k >> (n - 1 - i)) & 1 for i in range(n))
 
@@ -496,10 +503,14 @@ def fn_states(items):
             name = 'random_%s_state' % kind
             ctor = getattr(lib.pst, name)
             rootB = bits(bidx, 2 * N)
-            if r < 0:
-                it = explore2(run_both(lambda: ctor(N)), st, rootB=rootB, max_a=_base_coins(kind, N) + max_extra)
-            else:
-                it = explore2(run_both(lambda: ctor(N, r)), st, rootB=rootB, max_a=_base_coins(kind, N) + max_extra)
+            body = (lambda: ctor(N)) if r < 0 else (lambda: ctor(N, r))
+            nb0 = sign_coins_of_default_run(body)
+            if nb0 < 2 * N:
+                viol.append(V('C16/signs/%s/fewer-sign-coins-than-sign-bits' % name, item,
+                              '%s(%d) draws %d python-level coins for %d sign bits: the sign pattern cannot be uniform' % (name, N, nb0, 2 * N), nb0, 2 * N))
+                n += 1
+                continue
+            it = explore2(run_both(body), st, rootB=rootB, max_a=_base_coins(kind, N) + max_extra)
         first = None
         for a, b, state in it:
             n += 1
@@ -553,6 +564,12 @@ def fn_circuits(items):
 
         st = {}
         first = None
+        nb0 = sign_coins_of_default_run(body)
+        if nb0 < 2 * N:
+            viol.append(V('C16/signs/circuit/%s/fewer-sign-coins-than-sign-bits' % name, item,
+                          '%s(%d).%s draws %d python-level coins for %d sign bits of its gates: the sign patterns cannot be uniform' % (name, N, dirn, nb0, 2 * N), nb0, 2 * N))
+            n += 1
+            continue
         for a, b, state in explore2(run_both(body), st, rootA=tuple(prefixA), rootB=tuple(prefixB), max_a=base + max_extra):
             n += 1
             nt += 1
@@ -619,6 +636,11 @@ def fn_resample(items):
             viol.append(V('C16/resample/%s/second-call-draws-no-coins' % dirn, item,
                           'CliffordGate(%s): the second %s() of the same map-less gate consumed no coin (the sampled map is not resampled): '
                           'drawn maps have signs %s / %s and equal tables: %s' % (','.join(map(str, range(N))), dirn, m1[1], m2[1], m1[0] == m2[0])))
+            n += 1
+            continue
+        if c1[1] < 2 * N:
+            viol.append(V('C16/signs/resample/%s/fewer-sign-coins-than-sign-bits' % dirn, item,
+                          'CliffordGate.%s draws %d python-level coins for the %d sign bits of its map: the sign pattern cannot be uniform' % (dirn, c1[1], 2 * N), c1[1], 2 * N))
             n += 1
             continue
         if mode == 'pairs':
@@ -881,6 +903,16 @@ def conventions():
 
 
 # ------------------------------------------------------------------ legs
+def _explored_mass_clifford2(extra):
+    """probability that random_clifford(2) needs at most `extra` coins beyond 12: k rejections of the 1-qubit pair
+    (2 coins each, probability 1/4 each) and m of the 2-qubit pair (4 coins each, probability 1/16 each)."""
+    tot = 0.0
+    for m in range(extra // 4 + 1):
+        for k in range((extra - 4 * m) // 2 + 1):
+            tot += (15 / 16.0) * (1 / 16.0) ** m * (3 / 4.0) * (1 / 4.0) ** k
+    return tot
+
+
 def legs(tier):
     quick = tier == 'quick'
     for N in (1, 2):
@@ -900,22 +932,29 @@ def legs(tier):
     items += [['clifford', 2, 'signfixed', k, ex2] for k in range(16)]
     out.append(Leg('uniform_maps', fn_uniform, items, chunk=1, src_states=24 + 11520 + 24 + 576,
                    bound='random_clifford_map / random_pauli_map, N<=2: complete two-stream coin tree; rejection bounded to +%d numba coins at N=2 '
-                         '(coin classes 12..%d; residual mass %s), +6 at N=1' % (ex2, 12 + ex2, '3.3e-2' if quick else '2.6e-3')))
+                         '(coin classes 12..%d; unexplored residual mass %.2g), +6 at N=1 (residual 3.9e-3), +%d for random_pauli_map(2)' % (
+                             ex2, 12 + ex2, 1 - _explored_mass_clifford2(ex2), 4 if quick else 6)))
     # states
     sitems = [['bit', N, 0, 0, 0] for N in (1, 2, 3)]
+    s2 = []
     for kind in ('pauli', 'clifford'):
         for N in (1, 2):
             for r in [-1] + list(range(N + 1)):
-                bl = range(4 ** N)
-                if quick and N == 2 and kind == 'clifford':
-                    bl = (6, 9) if r in (-1, 1) else (0, 15)
-                for k in bl:
-                    sitems.append([kind, N, r, k, 4])
+                for k in range(4 ** N):
+                    if kind == 'clifford' and N == 2:
+                        if not quick or k in {-1: (6, 9), 0: (0,), 1: (15,), 2: (5,)}[r]:
+                            s2.append([kind, N, r, k, 4])
+                    else:
+                        sitems.append([kind, N, r, k, 4])
     out.append(Leg('states', fn_states, sitems, chunk=1,
-                   bound='random_bit_state N<=3 all coin strings; random_{pauli,clifford}_state(N<=2, r in default,0..N): whole pair-coin tree (+4 coins) x '
-                         + ('2 of 16 sign strings per r at N=2 clifford (all elsewhere)' if quick else 'all sign strings')))
+                   bound='random_bit_state N<=3 all coin strings; random_pauli_state(N<=2, r) and random_clifford_state(1, r), r in default,0..N: '
+                         'whole pair-coin tree (+4 coins) x all sign strings'))
+    out.append(Leg('states_clifford_N2', fn_states, s2, chunk=1, exhaustive=not quick, supplementary=quick,
+                   bound='random_clifford_state(2, r), r in default,0,1,2: whole pair-coin tree (+4 coins) x '
+                         + ('2 (default r) or 1 of the 16 sign strings (capped in quick; every (table, sign) map is covered by uniform_maps)' if quick else 'all 16 sign strings')))
     # circuits
     citems = []
+    c2 = []
     for dirn in ('forward', 'backward'):
         citems.append(['onsite_rcc', 1, dirn, [], [], 4])
         citems.append(['global_rcc', 1, dirn, [], [], 4])
@@ -924,27 +963,36 @@ def legs(tier):
         for p in itertools.product((0, 1), repeat=2):
             citems.append(['onsite_rcc', 2, dirn, list(p), [], 4])
         for k in range(16):
-            citems.append(['global_rcc', 2, dirn, [], list(bits(k, 4)), ex])
-        for k in ((1, 6, 11, 12) if quick else range(16)):
-            citems.append(['brickwall_rcc', 2, dirn, [], list(bits(k, 4)), ex])
+            if dirn == 'forward' or not quick:
+                citems.append(['global_rcc', 2, dirn, [], list(bits(k, 4)), ex])
+            elif k in (3, 5, 10, 12):
+                c2.append(['global_rcc', 2, dirn, [], list(bits(k, 4)), ex])
+        for k in ((6, 9) if quick else range(16)):
+            c2.append(['brickwall_rcc', 2, dirn, [], list(bits(k, 4)), ex])
     out.append(Leg('circuits', fn_circuits, citems, chunk=1,
-                   bound='brickwall_rcc(2,1), onsite_rcc(N<=2), global_rcc(N<=2) forward and backward on zero_state: every coin string (pair coins and '
-                         'sign coins); 2-qubit gate: ' + ('rejection-free pair coins (mass 0.70), all 16 sign strings for global_rcc, 4 of 16 for brickwall_rcc '
-                                                          '(same single gate on qubits 0,1)' if quick else 'rejection bounded to +4 coins, all sign strings')
-                         + '; 1-qubit gates: +4 coins'))
+                   bound='onsite_rcc(N<=2), global_rcc(1) forward and backward, global_rcc(2) %s on zero_state: every coin string (pair coins and all sign coins); '
+                         '1-qubit gates with +4 coins of rejection, the 2-qubit gate %s' % (
+                             'forward' if quick else 'forward and backward', 'rejection-free (mass 0.70)' if quick else 'with +4 coins (mass 0.967)')))
+    out.append(Leg('circuits_more', fn_circuits, c2, chunk=1, exhaustive=not quick, supplementary=quick,
+                   bound=('global_rcc(2) backward on 4 of 16 sign strings, brickwall_rcc(2,1) forward/backward on 2 of 16 sign strings, rejection-free pair coins '
+                          '(capped in quick)' if quick else 'brickwall_rcc(2,1) forward and backward: every coin string, +4 coins of rejection')))
     # resampling
     ritems = [[1, 'forward', 'pairs', None, 0], [1, 'forward', 'pairs', None, 4], [1, 'backward', 'pairs', None, 4]]
+    out.append(Leg('resample', fn_resample, ritems, chunk=1,
+                   bound='map-less CliffordGate(0) applied twice, forward and backward: the whole two-stream coin tree of both calls (+4 coins of rejection): '
+                         'all 24x24 ordered pairs of maps'))
+    r2 = []
     for dirn in ('forward', 'backward'):
         for k in (((3,) if dirn == 'forward' else (12,)) if quick else range(16)):
-            ritems.append([2, dirn, 'second', k, 2 if quick else 4])
-    out.append(Leg('resample', fn_resample, ritems, chunk=1,
-                   bound='map-less CliffordGate applied twice: N=1 all pairs of coin segments (+4 coins); N=2 first call fixed, second call whole '
-                         'tree (+%d coins) for %s sign strings' % (2 if quick else 4, '1 of 16 per direction' if quick else 'all 16')))
+            r2.append([2, dirn, 'second', k, 2 if quick else 4])
+    out.append(Leg('resample_N2', fn_resample, r2, chunk=1, exhaustive=not quick, supplementary=quick,
+                   bound='map-less CliffordGate(0,1) applied twice: coins of the first call fixed, whole pair-coin tree of the second call (+%d coins) for %s' % (
+                       2 if quick else 4, '1 of the 16 sign strings per direction (capped in quick)' if quick else 'all 16 sign strings')))
     if not quick:
-        n3 = [[[0, 0, 0, 0, 0, 0], 4]] + [[list(bits(k, 6)), 4] for k in range(1, 64)]
+        n3 = [[[0, 0, 0, 0, 0, 0], 2]] + [[list(bits(k, 6)), 2] for k in range(1, 64)]
         out.append(Leg('uniform_N3_tables', fn_n3, n3, chunk=1, src_states=dom.SP_ORDER[3], timeout=3000,
-                       bound='random_clifford(3), symplectic part: all coin strings of 24, 26, 28 coins (rejection of the 3-qubit pair itself, +6 coins, '
-                             'is beyond the bound: residual mass 1/64 + inner rejections ~3.3e-2)'))
+                       bound='random_clifford(3), symplectic part: all 23.2 M coin strings of 24 and 26 coins, split into the 63 subtrees below the first draw g1 '
+                             '(explored mass 0.865: rejection of the 3-qubit pair itself costs +6 coins, of the 2-qubit pair +4, a second 1-qubit rejection +4: beyond the bound)'))
     # torch
     titems = [['random_pair', 1, 4, []], ['random_pair', 2, 4, []], ['random_pauli', 1, 4, []], ['random_pauli', 2, 4, []],
               ['random_clifford', 1, 4, []], ['random_clifford_map', 1, 4, []], ['random_pauli_map', 1, 4, []],
